@@ -25,6 +25,8 @@
  *        that cannot be satisfied any more (nothing can arrive from a dead process) completes at once and its
  *        duration is added to the virtual clock; an INFINITE such wait is reported as "HANG".
  *
+ *   sdeathq <shm|sock> <k> <timeout>   the same, but the client's ONLY call after the server's death is qb_ipcc_disconnect.
+ *
  * Output (cdeath / hsprefix):  "cb <kind> <B|D|P>" callback log in order; "cut ..." white-box description of what the
  * server knew about the dying peer at the kill; "trace ..." the child's system calls; "dying ..." callback counts;
  * "census ..." descriptors / poll entries / service references / shm names relative to the moment before the dying
@@ -768,13 +770,14 @@ static void server_child(int shm)
 	_exit(0);
 }
 
-struct callrec { const char *name; int timeout; long rc; long long start, end; };
+struct callrec { const char *name; int timeout; long rc; long long start, end; int phase; };
 #define MAXCALLS 16
 static struct callrec calls[MAXCALLS];
 static volatile int ncalls = 0;
 static volatile int phase1_done = 0;
 static volatile long long death_ms = -1;
 static int sd_timeout;
+static int sd_only_disconnect = 0;   /* sdeathq: the client's ONLY call after the server's death is qb_ipcc_disconnect */
 static int sd_connected = 0;
 static int sd_dirs_after = -1, sd_files_after = -1;
 static pid_t server_pid;
@@ -782,7 +785,7 @@ static pid_t server_pid;
 static struct callrec *call_begin(const char *name, int timeout)
 {
 	struct callrec *r = &calls[ncalls];
-	r->name = name; r->timeout = timeout; r->rc = 0; r->start = vnow_ms(); r->end = -1;
+	r->name = name; r->timeout = timeout; r->rc = 0; r->start = vnow_ms(); r->end = -1; r->phase = phase1_done ? 2 : 1;
 	ncalls++;
 	return r;
 }
@@ -818,7 +821,9 @@ static void *client_thread(void *arg)
 	}
 	phase1_done = 1;
 	while (!warp_dead) __real_usleep(200);
-	if (c) {
+	if (c && sd_only_disconnect) {
+		r = call_begin("disconnect", 0); qb_ipcc_disconnect(c); call_end(r, 0);
+	} else if (c) {
 		rq.hdr.id = REQ_ECHO;
 		r = call_begin("event_recv", T); call_end(r, qb_ipcc_event_recv(c, &rsp, sizeof rsp, T));
 		r = call_begin("sendv_recv", T); call_end(r, qb_ipcc_sendv_recv(c, &iov, 1, &rsp, sizeof rsp, T));
@@ -875,8 +880,8 @@ static void case_sdeath(const char *tr, int k, int timeout)
 	printf("server %s count=%d\n", (r == 2) ? "killed-at-k" : "killed-idle", t.count);
 	print_trace(&t);
 	for (i = 0; i < ncalls; i++)
-		printf("call %s %d rc=%s start=%lld end=%lld death=%lld\n", calls[i].name, calls[i].timeout, ename(calls[i].rc),
-		       calls[i].start, calls[i].end, (long long)death_ms);
+		printf("call %s %d rc=%s start=%lld end=%lld death=%lld phase=%d\n", calls[i].name, calls[i].timeout, ename(calls[i].rc),
+		       calls[i].start, calls[i].end, (long long)death_ms, calls[i].phase);
 	if (hang_seen) printf("HANG %s in call %s\n", hang_where, ncalls ? calls[ncalls - 1].name : "?");
 	printf("residue files=%d dirs=%d connected=%d\n", sd_files_after, sd_dirs_after, sd_connected);
 	snprintf(prefix, sizeof prefix, "qb-%d-", (int)server_pid);
@@ -902,7 +907,8 @@ int main(void)
 		if (line[0] == '#') { fputs(line, stdout); fflush(stdout); continue; }
 		if (sscanf(line, "cdeath %15s %d %d %d", tr, &a, &b, &c) == 4) case_cdeath(tr, a, b, c);
 		else if (sscanf(line, "hsprefix %15s %d %d", tr, &a, &b) == 3) case_hsprefix(tr, a, b);
-		else if (sscanf(line, "sdeath %15s %d %d", tr, &a, &b) == 3) case_sdeath(tr, a, b);
+		else if (sscanf(line, "sdeath %15s %d %d", tr, &a, &b) == 3) { sd_only_disconnect = 0; case_sdeath(tr, a, b); }
+		else if (sscanf(line, "sdeathq %15s %d %d", tr, &a, &b) == 3) { sd_only_disconnect = 1; case_sdeath(tr, a, b); }
 		else if (line[0] != '\n') printf("r bad-op\n");
 		fflush(stdout);
 	}
